@@ -35,6 +35,8 @@ func runC01(c *Ctx) {
 	// comparison that decides "unchanged" covers every transferred attribute,
 	// for every entry type (shared with C02)
 	r02_1(c, "R01.12")
+	// file bytes: the file writer stores every chunk it is handed (shared with C05)
+	r05_5(c, "R01.13")
 }
 
 // statSources: required provenance of each Stat field in the constructor.
